@@ -135,6 +135,29 @@ Section C12.
     length cap <= i / 2 ^ length p ->
     verify_merkle_proof_to_cap_res F digest hash_leaf two_to_one digest_eqb l i cap p = VPanic.
   Proof. exact (verify_out_of_range_panics F digest hash_leaf two_to_one digest_eqb). Qed.
+
+  (* ---- batch trees (BatchMerkleTree): layers of 2^k0 > 2^k1 > .. rows, cap height h ---- *)
+  Variable digest_to_vec : digest -> list F.
+
+  (* remaining layers (matrix, height) below a stage of height kc: 2^kn rows each, strictly
+     decreasing heights, all at least the cap height (the asserts of BatchMerkleTree::new) *)
+  Fixpoint batch_shape_ok (kc : nat) (rest : list (list (list F) * nat)) (h : nat) : Prop :=
+    match rest with
+    | [] => h <= kc
+    | (nxt, kn) :: rest' => length nxt = 2 ^ kn /\ kn < kc /\ batch_shape_ok kn rest' h
+    end.
+
+  (* open_batch(i) verifies against the batch cap together with values(i), in debug and release *)
+  Theorem C12_batch_prove_verify : forall (dbg : bool) (first : list (list F)) (k0 : nat)
+      (rest : list (list (list F) * nat)) (h i : nat),
+    length first = 2 ^ k0 -> batch_shape_ok k0 rest h -> i < 2 ^ k0 ->
+    exists t proof vals,
+      batch_merkle_tree_new F digest hash_leaf two_to_one digest_to_vec (first :: map fst rest) h = Some t
+      /\ open_batch F digest dbg t i = Some proof
+      /\ batch_values F digest t i = Some vals
+      /\ verify_batch_merkle_proof_to_cap F digest hash_leaf two_to_one digest_eqb digest_to_vec dbg
+           vals (bt_leaf_heights t) i (bt_cap t) proof = VOk.
+  Proof. exact (batch_prove_verify F digest hash_leaf two_to_one digest_eqb digest_to_vec digest_eqb_spec). Qed.
 End C12.
 
 (* hash_or_noop of a HashOut hasher (Poseidon; Keccak-25 has the same shape with 3 elements):
@@ -165,6 +188,22 @@ Example C12_example_tree :
     && negb (verify_merkle_proof_to_cap Fp (list Fp) toy_hash_or_noop toy_two_to_one digest_eqb
          (nth 4 toy_leaves []) 5 cap proof)
   | _, _ => false
+  end = true.
+Proof. vm_compute. reflexivity. Qed.
+
+Example C12_example_batch :
+  let first := toy_leaves in
+  let second := map (fun j => [toFp (Z.of_nat (100 + j))]) (seq 0 2) in
+  match batch_merkle_tree_new Fp (list Fp) toy_hash_or_noop toy_two_to_one (fun d => d) [first; second] 0 with
+  | Some t =>
+    match open_batch Fp (list Fp) false t 6, batch_values Fp (list Fp) t 6 with
+    | Some proof, Some vals =>
+      (length proof =? 3) && (length vals =? 2)
+      && match verify_batch_merkle_proof_to_cap Fp (list Fp) toy_hash_or_noop toy_two_to_one digest_eqb
+                 (fun d => d) false vals (bt_leaf_heights t) 6 (bt_cap t) proof with VOk => true | _ => false end
+    | _, _ => false
+    end
+  | None => false
   end = true.
 Proof. vm_compute. reflexivity. Qed.
 
